@@ -401,13 +401,32 @@ class USBStreamOutEndpoint(Elaboratable):
             fifo.read_commit  .eq(1)
         ]
 
+        # Stores whether the packet being received is a full (max-size) one, and whether it has carried data.
+        packet_is_full  = Signal()
+        packet_has_data = Signal()
+
         # Count bytes in packet.
         with m.If(fifo.write_en):
             m.d.usb += rx_cnt.eq(rx_cnt + 1)
 
-            # Set the transfer active flag depending on whether this is a full packet.
+            # Remember whether this is a full packet.
             with m.If(rx_last):
-                m.d.usb += transfer_active.eq(full_packet)
+                m.d.usb += packet_is_full.eq(full_packet)
+
+        # The transfer active flag follows accepted packets only: a committed packet continues the transfer
+        # if it was a full one and ends it otherwise; a discarded packet changes nothing (and neither does the
+        # empty commit that follows a packet we skipped because of a repeated data toggle).
+        with m.If(fifo.write_commit & packet_has_data):
+            m.d.usb += transfer_active.eq(packet_is_full)
+
+        # A zero-length packet never reaches the FIFO, so it is never committed; it ends the transfer
+        # when we accept (ACK) it.
+        with m.If(tokenizer.new_token):
+            m.d.usb += packet_has_data.eq(0)
+        with m.If(okay_to_receive & rx.next & rx.valid):
+            m.d.usb += packet_has_data.eq(1)
+        with m.If(data_response_requested & data_accepted & ~packet_has_data & ~(rx.next & rx.valid)):
+            m.d.usb += transfer_active.eq(0)
 
         # We'll set the overflow flag if we're receiving data we don't have room for.
         with m.If(data_is_lost):
